@@ -1,7 +1,9 @@
 package main
 
 import (
+	"crypto/sha1"
 	"encoding/base64"
+	"encoding/hex"
 	"encoding/json"
 	"fmt"
 	"os"
@@ -13,6 +15,7 @@ import (
 
 	"verifharness/internal/dagm"
 	"verifharness/internal/ev"
+	"verifharness/internal/lmm"
 	"verifharness/internal/node"
 	"verifharness/internal/snap"
 	"verifharness/internal/tlc"
@@ -29,7 +32,7 @@ var descRe = regexp.MustCompile(`"Description":"[^"]*"`)
 // (repo-level or single-key).
 var atomicKinds = map[string]bool{"newrepo": true, "newinstance": true, "commit": true, "newversion": true, "branch": true,
 	"merge": true, "nodenote": true, "nodelog": true, "repolog": true, "tags": true, "repoinfo": true,
-	"kvput": true, "kvdelete": true}
+	"kvput": true, "kvdelete": true, "njpost": true, "njdelete": true}
 
 type c04Ref struct {
 	ops    []wOp
@@ -41,11 +44,55 @@ type c04Ref struct {
 
 func c04World(n *node.Node, seed int64) *world {
 	w := newWorld(n, seed)
-	w.Types = []string{"keyvalue", "roi", "annotation", "neuronjson"}
+	// (labelmap has its own crash check, c04_labelmap.go: the region geometry and the specification
+	// give an oracle for half-applied operations)
+	w.Types = []string{"keyvalue", "roi", "annotation", "neuronjson", "uint8blk"}
 	return w
 }
 
-func c04SnapOpts() snap.Options { return snap.Options{} }
+// c04SnapOpts: the image instance (fifth type of the workload, hence "ui4") is read as a volume.
+func c04SnapOpts() snap.Options {
+	return snap.Options{Volume: map[string][2]string{"ui4": {"96_64_32", "-32_0_0"}}}
+}
+
+// blankInstanceSettings replaces, in the repo-level entries of a snapshot, the type-specific
+// settings (Extended, Extents) of one data instance by a placeholder.
+func blankInstanceSettings(key, body, inst string) string {
+	if !strings.HasPrefix(key, "repo") || inst == "" || !strings.Contains(body, `"DataInstances"`) {
+		return body
+	}
+	var v interface{}
+	if json.Unmarshal([]byte(body), &v) != nil {
+		return body
+	}
+	var walk func(x interface{})
+	walk = func(x interface{}) {
+		m, ok := x.(map[string]interface{})
+		if !ok {
+			return
+		}
+		if di, ok := m["DataInstances"].(map[string]interface{}); ok {
+			if one, ok := di[inst].(map[string]interface{}); ok {
+				for _, k := range []string{"Extended", "Extents"} {
+					if _, has := one[k]; has {
+						one[k] = "*"
+					}
+				}
+			}
+		}
+		for k, sub := range m {
+			if k != "DataInstances" {
+				walk(sub)
+			}
+		}
+	}
+	walk(v)
+	b, err := json.Marshal(v)
+	if err != nil {
+		return body
+	}
+	return string(b)
+}
 
 // instOfURL extracts the data instance a data request addresses.
 func instOfURL(url string) string {
@@ -83,7 +130,7 @@ func runReference(c *Ctx, seed int64, length int) *c04Ref {
 		ref.ops = append(ref.ops, op)
 		ref.kinds = append(ref.kinds, kind)
 		in := ""
-		if !atomicKinds[kind] || kind == "kvput" || kind == "kvdelete" {
+		if !atomicKinds[kind] || kind == "kvput" || kind == "kvdelete" || kind == "njpost" || kind == "njdelete" {
 			in = instOfURL(op.URL)
 		}
 		ref.inst = append(ref.inst, in)
@@ -204,12 +251,46 @@ func crashRun(c *Ctx, run *ev.Run, ref *c04Ref, seed int64, crashAt uint64, afte
 		}
 		kind := ref.kinds[acked]
 		if !atomicKinds[kind] {
-			// multi-key data operation: partial application is allowed inside the instance it
-			// writes; everything else must be as after the acknowledged operations
+			// multi-key data operation: the entries the complete operation changes (all inside the
+			// instance it writes) may show a partial result, but must answer; every other entry -
+			// other instances, the same instance at versions the operation does not reach, reads the
+			// operation leaves alone - must be as after the acknowledged operations
 			in := ref.inst[acked]
-			rest := snap.DiffFiltered(ref.snaps[acked], got, func(key string) bool {
-				return !strings.HasPrefix(key, "data/"+in+"@")
-			})
+			// (the instance's own derived settings inside the repo blob - a ROI's MinZ/MaxZ, an image
+			// volume's extents - belong to the instance: a half-applied operation may leave them at an
+			// intermediate value)
+			blank := func(key, body string) string { return blankInstanceSettings(key, body, in) }
+			refK, refK1, got := snap.Transform(ref.snaps[acked], blank), snap.Transform(ref.snaps[acked+1], blank), snap.Transform(got, blank)
+			changed := map[string]bool{}
+			for _, d := range snap.Diff(refK, refK1) {
+				if i := strings.Index(d, ": "); i >= 0 && strings.HasPrefix(d, "data/"+in+"@") {
+					changed[d[:i]] = true
+				}
+			}
+			// (an entry outside the instance that the complete operation changes - e.g. the extents in
+			// the repo blob - is a single key: old or new)
+			rest := snap.DiffFiltered(refK, got, func(key string) bool { return !changed[key] })
+			if len(rest) > 0 {
+				after := map[string]bool{}
+				for _, d := range snap.DiffFiltered(refK1, got, func(key string) bool { return !changed[key] }) {
+					if i := strings.Index(d, ": "); i >= 0 {
+						after[d[:i]] = true
+					}
+				}
+				var both []string
+				for _, d := range rest {
+					if i := strings.Index(d, ": "); i >= 0 && !after[d[:i]] {
+						continue // this entry has the value it has after the complete operation
+					}
+					both = append(both, d)
+				}
+				rest = both
+			}
+			for _, e := range got.Entries {
+				if changed[e.Key] && e.Status >= 500 {
+					rest = append(rest, fmt.Sprintf("%s: status %d %s (a half-applied operation must still read)", e.Key, e.Status, e.Body))
+				}
+			}
 			if len(rest) == 0 {
 				run.Eval(fmt.Sprintf("w%d|%s|partial-multikey", crashAt, when))
 				return
@@ -238,10 +319,28 @@ func crashRun(c *Ctx, run *ev.Run, ref *c04Ref, seed int64, crashAt uint64, afte
 	run.Violation("c04", div)
 }
 
-// tornLogs appends records to a filelog, then leaves the file torn at every byte length and
-// reads it back through ReadAll and StreamAll.
-func tornLogs(c *Ctx, run *ev.Run, sizes []int) (int64, int64, int64) {
-	// TLC: expected number of complete records for every length
+type logRecObs struct {
+	Type uint16 `json:"type"`
+	Len  int    `json:"len"`
+	Sha  string `json:"sha"`
+}
+
+type logReadObs struct {
+	ReadAll    []logRecObs `json:"readall"`
+	ReadAllErr string      `json:"readall_err"`
+	Stream     []logRecObs `json:"stream"`
+	StreamErr  string      `json:"stream_err"`
+}
+
+func shaHex(p []byte) string {
+	h := sha1.Sum(p)
+	return hex.EncodeToString(h[:])
+}
+
+// logFrameExpect runs LogFrame.tla for the given payload sizes: the number of complete records
+// for every file length, and the number of records a reader must return after the log was
+// reopened and one more record appended at that length.
+func logFrameExpect(c *Ctx, sizes []int, headerLen int) (want, wantAfterAppend []int, distinct, generated int64) {
 	var sb strings.Builder
 	sb.WriteString("---- MODULE LogFrameSizes ----\nSizesDef == <<")
 	for i, s := range sizes {
@@ -252,20 +351,38 @@ func tornLogs(c *Ctx, run *ev.Run, sizes []int) (int64, int64, int64) {
 	}
 	sb.WriteString(">>\n====\n")
 	mc := "---- MODULE LogFrame_mc ----\nEXTENDS LogFrame, LogFrameSizes\n====\n"
-	cfg := "SPECIFICATION Spec\nCONSTANTS\n  Sizes <- SizesDef\nINVARIANTS Inv_ReadIsPrefix Inv_NoPartial Emit\nCHECK_DEADLOCK FALSE\n"
+	cfg := fmt.Sprintf("SPECIFICATION Spec\nCONSTANTS\n  Sizes <- SizesDef\n  HeaderLen = %d\nINVARIANTS Inv_ReadIsPrefix Inv_NoPartial Inv_ReadTornGenuine Inv_AppendAfterTorn Emit EmitAppend\nCHECK_DEADLOCK FALSE\n", headerLen)
 	r := c.MustModelCheck(tlc.Opts{Module: "LogFrame_mc", Config: "gen_log.cfg", Workers: 1,
 		Files: map[string][]byte{"LogFrameSizes.tla": []byte(sb.String()), "LogFrame_mc.tla": []byte(mc), "gen_log.cfg": []byte(cfg)}})
-	var want []int
-	PrintedJSON(r.Output, func(raw []byte) { json.Unmarshal(raw, &want) })
-	if len(want) == 0 {
-		infra("LogFrame emitted nothing: %s", r.Tail(1000))
+	PrintedJSON(r.Output, func(raw []byte) {
+		var o struct {
+			AfterAppend []int `json:"after_append"`
+		}
+		if json.Unmarshal(raw, &o) == nil && len(o.AfterAppend) > 0 {
+			wantAfterAppend = o.AfterAppend
+			return
+		}
+		json.Unmarshal(raw, &want)
+	})
+	if len(want) == 0 || len(wantAfterAppend) != len(want) {
+		infra("LogFrame emitted %d / %d expectations: %s", len(want), len(wantAfterAppend), r.Tail(1000))
 	}
+	return want, wantAfterAppend, r.Distinct, r.Generated
+}
+
+// tornLogs appends records to a filelog, then leaves the file torn at every byte length and
+// reads it back through ReadAll and StreamAll (type, length and digest of every record); then
+// one more record is appended to the torn file and the log read again: exactly the complete
+// old records and the new one.
+func tornLogs(c *Ctx, run *ev.Run, sizes []int) (int64, int64, int64) {
+	want, wantApp, distinct, generated := logFrameExpect(c, sizes, 6)
 	n := c.StartNode(node.Config{})
 	defer c.DropNode(n)
 	data, ver := dagm.RandHex(), dagm.RandHex()
 	type rec struct {
 		Type uint16
 		Len  int
+		Sha  string
 	}
 	var recs []rec
 	for i, sz := range sizes {
@@ -275,64 +392,85 @@ func tornLogs(c *Ctx, run *ev.Run, sizes []int) (int64, int64, int64) {
 		}
 		must(n.Call("log.append", map[string]interface{}{"store": "mlog", "data": data, "version": ver, "type": i + 1,
 			"payload": base64.StdEncoding.EncodeToString(p)}, nil), "log.append")
-		recs = append(recs, rec{uint16(i + 1), sz})
+		recs = append(recs, rec{uint16(i + 1), sz, shaHex(p)})
 	}
+	newP := make([]byte, sizes[0])
+	for j := range newP {
+		newP[j] = byte(251 + j%4)
+	}
+	newRec := rec{99, len(newP), shaHex(newP)}
 	path := filepath.Join(n.Cfg.Dir, "flog", data+"-"+ver)
 	full, err := os.ReadFile(path)
 	must(err, "read log file")
 	if len(full)+1 != len(want) {
-		infra("log file has %d bytes, specification expects %d", len(full), len(want)-1)
+		// every append was acknowledged: the file must hold exactly the framed records
+		run.Violation("c04-log", map[string]interface{}{"kind": "acknowledged-appends-not-in-the-log-file", "record_payload_sizes": sizes,
+			"diffs": []string{fmt.Sprintf("log file has %d bytes after %d acknowledged appends, the framed records take %d", len(full), len(sizes), len(want)-1)}})
+		return distinct, generated, 0
 	}
 	var evals int64
 	for L := 0; L <= len(full); L++ {
 		must(os.WriteFile(path, full[:L], 0644), "truncate")
-		var res struct {
-			ReadAll []struct {
-				Type uint16 `json:"type"`
-				Len  int    `json:"len"`
-				Sha  string `json:"sha"`
-			} `json:"readall"`
-			ReadAllErr string `json:"readall_err"`
-			Stream     []struct {
-				Type uint16 `json:"type"`
-				Len  int    `json:"len"`
-				Sha  string `json:"sha"`
-			} `json:"stream"`
-			StreamErr string `json:"stream_err"`
-		}
+		var res logReadObs
 		err := n.Call("log.read", map[string]string{"store": "mlog", "data": data, "version": ver}, &res)
 		must(err, "log.read")
 		evals++
 		run.Eval(fmt.Sprintf("torn|%v|%d", sizes, L))
-		k := want[L]
 		var diffs []string
-		check := func(name string, got []struct {
-			Type uint16 `json:"type"`
-			Len  int    `json:"len"`
-			Sha  string `json:"sha"`
-		}, errs string) {
+		check := func(name string, got []logRecObs, errs string, exp []rec) {
 			if strings.HasPrefix(errs, "PANIC") {
 				diffs = append(diffs, fmt.Sprintf("%s panicked: %s", name, errs))
 				return
 			}
-			if len(got) != k {
-				diffs = append(diffs, fmt.Sprintf("%s returned %d records, %d are complete", name, len(got), k))
+			if len(got) != len(exp) {
+				diffs = append(diffs, fmt.Sprintf("%s returned %d records, %d are complete", name, len(got), len(exp)))
 			}
-			for i := 0; i < len(got) && i < k; i++ {
-				if got[i].Type != recs[i].Type || got[i].Len != recs[i].Len {
-					diffs = append(diffs, fmt.Sprintf("%s record %d: type %d len %d, written type %d len %d", name, i+1, got[i].Type, got[i].Len, recs[i].Type, recs[i].Len))
+			for i := 0; i < len(got) && i < len(exp); i++ {
+				if got[i].Type != exp[i].Type || got[i].Len != exp[i].Len {
+					diffs = append(diffs, fmt.Sprintf("%s record %d: type %d len %d, written type %d len %d", name, i+1, got[i].Type, got[i].Len, exp[i].Type, exp[i].Len))
+				} else if got[i].Sha != exp[i].Sha {
+					diffs = append(diffs, fmt.Sprintf("%s record %d (type %d, %d bytes): payload digest %s, written %s", name, i+1, got[i].Type, got[i].Len, got[i].Sha, exp[i].Sha))
 				}
 			}
 		}
-		check("ReadAll", res.ReadAll, res.ReadAllErr)
-		check("StreamAll", res.Stream, res.StreamErr)
+		check("ReadAll", res.ReadAll, res.ReadAllErr, recs[:want[L]])
+		check("StreamAll", res.Stream, res.StreamErr, recs[:want[L]])
 		if len(diffs) > 0 {
 			run.Violation("c04-log", map[string]interface{}{"kind": "torn-log-read", "record_payload_sizes": sizes, "file_length": L,
-				"complete_records": k, "diffs": diffs})
+				"complete_records": want[L], "diffs": diffs})
+			continue
+		}
+		// append after the torn tail (the next process continues the log)
+		must(n.Call("log.append", map[string]interface{}{"store": "mlog", "data": data, "version": ver, "type": 99,
+			"payload": base64.StdEncoding.EncodeToString(newP)}, nil), "log.append")
+		var res2 logReadObs
+		must(n.Call("log.read", map[string]string{"store": "mlog", "data": data, "version": ver}, &res2), "log.read")
+		evals++
+		run.Eval(fmt.Sprintf("torn-append|%v|%d", sizes, L))
+		exp := append(append([]rec{}, recs[:wantApp[L]-1]...), newRec)
+		check("ReadAll after append", res2.ReadAll, res2.ReadAllErr, exp)
+		check("StreamAll after append", res2.Stream, res2.StreamErr, exp)
+		if len(diffs) > 0 {
+			if L < len(full) && want[L] < len(recs) && L != endOfRecords(sizes, want[L], 6) && run.KnownActive(c04AppendAfterTorn) {
+				run.ReportKnown(c04AppendAfterTorn)
+				continue
+			}
+			run.Violation("c04-log", map[string]interface{}{"kind": "append-after-torn-tail", "record_payload_sizes": sizes, "file_length": L,
+				"complete_records": want[L], "diffs": diffs})
 		}
 	}
-	return r.Distinct, r.Generated, evals
+	return distinct, generated, evals
 }
+
+func endOfRecords(sizes []int, k, headerLen int) int {
+	e := 0
+	for i := 0; i < k; i++ {
+		e += headerLen + sizes[i]
+	}
+	return e
+}
+
+const c04AppendAfterTorn = "filelog-append-after-torn-tail"
 
 func checkC04(c *Ctx) int {
 	run := ev.NewRun("C04", c.Tier, "model_checking")
@@ -412,16 +550,38 @@ func checkC04(c *Ctx) int {
 		parallel(len(pts), 12, func(_, i int) {
 			crashRun(c, run, ref, seed, pts[i].n, pts[i].after, pts[i].second, &nruns)
 		})
+		if wl == 0 {
+			// a crash inside the very first start-up; a crash inside the background deletion of an instance
+			nruns += firstStartCrash(c, run, ref, seed)
+			nruns += deletionCrash(c, run, seed)
+			// a crash inside the deletion of a repository (DeleteRepoProg, with a bystander repo)
+			ds, dt := deleteRepoModel(c)
+			states += ds
+			trans += dt
+			nruns += deleteRepoCrash(c, run, seed, pm.WriteTable)
+		}
 	}
+	// crashes inside labelmap operations (LabelmapCrash.tla)
+	small := lmm.NewGeom(c.Seed, true)
+	graphs := lmcGraphs(c, small)
+	lmStates, lmTrans, lmRuns := lmCrashCheck(c, run, small, graphs)
+	states += lmStates
+	trans += lmTrans
+	// torn mapping / mutation logs of a real labelmap instance, append after a torn tail
+	rlStates, rlTrans, rlRuns := realLogCheck(c, run, graphs[0], small, lmcLayouts[0].initSV)
+	states += rlStates
+	trans += rlTrans
+	lmRuns += rlRuns
 	run.Set("states", states)
 	run.Set("transitions", trans)
-	run.Set("traces_validated_against_impl", nruns+tornEvals+int64(nw))
+	run.Set("traces_validated_against_impl", nruns+tornEvals+int64(nw)+lmRuns)
 	run.Set("crash_points", totalPoints)
 	run.Set("crash_runs_recovered_and_compared", nruns)
 	run.Set("torn_log_lengths", tornEvals)
-	run.Set("rule", "fault = process exit injected by the wrapping store engine immediately before / after the N-th store write of a seeded workload, for every N (plus a second crash inside the recovery start-up), then a normal start-up, well-formedness of the metadata and comparison of the canonical full snapshot with the fault-free reference after k and k+1 operations (all-or-nothing for repo-level and single-key operations); and every byte length of a filelog file compared with LogFrame.tla's complete-record count through ReadAll and StreamAll; distinct = distinct (write, when, outcome) / (sizes, length)")
-	run.Assume = []string{"a Badger transaction / batch flush is atomic (crash granularity = store API call)", "page cache survives process exit"}
-	fmt.Printf("C04: tlc %d states; %d crash points, %d recovered+compared, %d torn lengths in %.1fs; violations=%d\n",
-		states, totalPoints, nruns, tornEvals, since(t0), run.Violations())
+	run.Set("rule", "fault = process exit injected by the wrapping store engine immediately before / after the N-th store write of a seeded workload, for every N (plus a second crash inside the recovery start-up), then a normal start-up, well-formedness of the metadata and comparison of the canonical full snapshot with the fault-free reference after k and k+1 operations (all-or-nothing for repo-level and single-key operations incl. neuronjson key writes; for a multi-key data operation only the snapshot entries the complete operation changes may differ, and must answer); the same at every write of the very first start-up on empty stores (the workload then runs as on a server that never crashed) and at every write of the background deletion of a data instance (entirely present or, after the resumed deletion, entirely absent) and of the deletion of a repository beside a bystander repo (DeleteRepoProg of DvidPersist.tla, model-checked with a bystander by DvidPersistDel_mc incl. a vacuity guard: the program with the blob deleted last must violate Inv_C04_StartupSucceeds; on the server: start-up, well-formed metadata, snapshot = before or = after the completed deletion, then a repo is created and must survive one more restart unchanged). Label data (LabelmapCrash.tla): a process exit before / after every store write and before / after / inside (torn record) every log append of the ingest of a block (POST raw, POST blocks), merge, cleave, split-supervoxel and a mutating voxel write on a 4-block labelmap; after recovery the committed parent and a sibling version holding acknowledged work are compared with the specification's full observation, every single-key cell of the interrupted version (block, label index, mapping record) must hold its value before or after the operation (values projected from the specification's observations and its mapping writes), an operation found entirely absent / present must read as the source / target state on the full read set (an absent one is issued again and must then read as the target state), a half-applied one must answer every read without a server error. Logs: every byte length of a filelog file compared with LogFrame.tla's complete-record count through ReadAll and StreamAll (type, length and payload digest), then one more record appended to the torn file and read back (old complete records + the new one); on a real labelmap instance the mapping log and the mutation log (.plog) are left torn at lengths inside the records of an acknowledged merge / split-supervoxel / cleave, a new process started (mapping cells old or new, no invented mapping, GET mutations and mutations-range valid JSON of exactly the complete records), one more operation acknowledged, the process killed and started again (its mapping and mutation records must be readable); distinct = distinct (write, when, outcome) / (sizes, length) / (operation, write, when, outcome) / (scenario, file, length)")
+	run.Assume = []string{"a Badger transaction / batch flush is atomic (crash granularity = store API call; DeleteAll of an instance counts as one call)", "page cache survives process exit",
+		"labelmap crash runs use 6-region layouts of a 4-block volume; mutating voxel writes are restricted to regions lying in one block (one request)"}
+	fmt.Printf("C04: tlc %d states; %d crash points, %d recovered+compared, %d torn lengths, %d labelmap crash / torn-log runs in %.1fs; violations=%d\n",
+		states, totalPoints, nruns, tornEvals, lmRuns, since(t0), run.Violations())
 	return run.Finish()
 }
